@@ -157,6 +157,7 @@ def c06(tier, replay):
 def setup():
     try:
         C.build_runner()
+        C.build_runner(profile="checked")
         for f in sorted(os.listdir(C.SPEC)):
             if f.endswith(".tla"):
                 p = subprocess.run(["tla-sany", f], cwd=C.SPEC, stdout=subprocess.PIPE, stderr=subprocess.STDOUT, text=True)
